@@ -26,7 +26,7 @@ namespace {
       {
          // parameters of two different mappings (different parameter lists), then plain values
          auto m1 = lex.make_mapping(*unit.global_region(), ipr::Mapping_level{0});
-         auto m2 = lex.make_mapping(*unit.global_region(), ipr::Mapping_level{1});
+         auto m2 = lex.make_mapping(*unit.global_region(), ipr::Mapping_level{0});   // same level: positions coincide across the two lists
          for (int k = 0; k < np; ++k) {
             auto& name = lex.get_identifier(vh::u8("p" + std::to_string(k)));
             auto p = (k % 2 ? m2 : m1)->param(name, lex.int_type());
